@@ -89,7 +89,7 @@ CLAIMS = {
         design='4/C16'),
     'C17': dict(
         technique='abstract interpretation of the python bookkeeping in create_redist_dict / create_groups (pvstatic.imp: symbolic values over a product of zone (difference-bound, Floyd-Warshall closure) and sign domains, one symbolic iteration per loop from a havocked head plus the invariant under check, path splitting on the code\'s own tests; no solver); roles (ranks dict, group, budget, proportional / top-up loops, pool variables) found by data flow, not by name',
-        text='Static: at the write-out of every group the facts sum(ranks) <= len(group) * sketchy_rank and "every rank <= dim" are established by assertions on every path and only the top-up loop touches the ranks afterwards; the top-up loop has a pool variable with 1 <= pool <= budget - sum(ranks) at entry and in every path of an iteration ranks do not decrease, d(ranks) + d(pool) <= 0, ranks stay <= dim, pool stays >= 0 and the loop continues only with pool >= 1; the proportional loop starts from a pool <= budget - len(group) (one rank per layer set aside), stores exactly one integer rank >= 1 per layer keyed by that layer, charges at least rank - 1, divides only by denominators the path knows to be positive (F19 repaired) and lowers the remaining score by at most the layer\'s own score; create_groups keys every layer by its axis dimension and places it in exactly that group. Necessary conditions of C17.',
+        text='Static: at the write-out of every group the facts sum(ranks) <= len(group) * sketchy_rank and "every rank <= dim" are established by assertions on every path and only the top-up loop touches the ranks afterwards; the top-up loop has a pool variable with 1 <= pool <= budget - sum(ranks) at entry and in every path of an iteration ranks do not decrease, d(ranks) + d(pool) <= 0, ranks stay <= dim, pool stays >= 0 and the loop continues only with pool >= 1; the proportional loop starts from a pool <= budget - len(group) (one rank per layer set aside), stores exactly one integer rank >= 1 per layer keyed by that layer, charges at least rank - 1, divides only by denominators the path knows to be positive (F19 repaired) and lowers the remaining score by at most the layer\'s own score, every share is floor(score * pool / remaining) so the pool stays >= 0, every stored rank is <= dim on its own path; the assertions of the iteration are implied by what precedes them (no valid input is turned into an AssertionError); create_groups keys every layer by its axis dimension and places it in exactly that group. Necessary conditions of C17.',
         note='Trusted: non-negative finite scores; assertions executed; nested helpers pure. Undecided: the proportional phase tripping its own assertions for float scores (no allocation returned).',
         design='4/C17'),
 }
